@@ -563,6 +563,9 @@ func (u *UpServer) handle(b []byte, proto string, conn int, qc qctx, reply func(
 	s := u.S
 	m, err := refdns.Parse(b)
 	q := UpQuery{At: s.Now(), Up: u.Spec.Tag, Proto: proto, Conn: conn, Raw: b, SNI: qc.sni, Host: qc.host, Path: qc.path}
+	if n := poisonRun(b); n >= 8 {
+		s.Fail("C20", "released-memory-on-the-wire", "upstream %s (%s, conn %d) received %d bytes from the proxy of which %d consecutive ones are the release/allocation poison pattern: a buffer was used after it had been released: %x", u.Spec.Tag, proto, conn, len(b), n, b[:min(len(b), 48)])
+	}
 	if err != nil || len(m.Q) == 0 {
 		u.mu.Lock()
 		u.Queries = append(u.Queries, q)
@@ -742,4 +745,20 @@ func (u *UpServer) RepliesCopy() []UpReply {
 	u.mu.Lock()
 	defer u.mu.Unlock()
 	return append([]UpReply(nil), u.Replies...)
+}
+
+// poisonRun is the longest run of 0xDB (released) bytes in b.
+func poisonRun(b []byte) int {
+	best, cur := 0, 0
+	for _, c := range b {
+		if c == 0xDB {
+			cur++
+			if cur > best {
+				best = cur
+			}
+		} else {
+			cur = 0
+		}
+	}
+	return best
 }
